@@ -77,7 +77,9 @@ let () =
    before completion, and - for the file under way when the machine failed or ran out of input -
    the acks / DATA messages (the real pipeline acknowledges and sends ahead of its checks). *)
 
-let ft_hexs l = String.concat "+" (List.map hex_of_bytes l)
+(* names as the harness reads them back from a "Saved ..." message: an empty name (a reply record without a
+   name field) is an empty bullet there, which the reader drops *)
+let ft_hexs l = String.concat "+" (List.map hex_of_bytes (List.filter (fun n -> n <> []) l))
 let ft_istr n = string_of_int (int_of_n n)
 let ft_pairs s = List.filter_map (fun e -> match String.split_on_char '>' e with
     | [a; b] -> Some (bytes_of_hex a, bytes_of_hex b) | _ -> None) (ft_split ';' s)
@@ -194,7 +196,8 @@ let () =
             let (stp, _) = FaultTie.ft_feed ft_md5 ft_deq zdecomp unzl hx aparse cfg dest (Transfer.tr_receiver_init f0 []) (take i ms) in
             (match stp.Transfer.rs_phase with
              | Transfer.RpFail | Transfer.RpDone -> "F"
-             | _ -> "D:" ^ names)
+             | Transfer.RpExit -> "D:" ^ ft_hexs stp.Transfer.rs_names   (* the regular end: trz prints ITS names (formatSavedFiles localNames) *)
+             | _ -> if names = "!" then "F" else "D:" ^ names)          (* "remote exit": the text of the client's message *)
           | _, None -> "F"
         end else (match st.Transfer.rs_phase with
             | Transfer.RpDone -> "D:" ^ ft_hexs st.Transfer.rs_names
@@ -271,7 +274,29 @@ let () =
            | Transfer.SpDone -> "D:" ^ ft_hexs !st.Transfer.ss_names
            | _ -> "F")
         else (match !shown, !st.Transfer.ss_phase with
+            | Some "!", _ -> "F"   (* the text delivered as the client's message is not a "Saved ..." message *)
             | Some names, _ -> "D:" ^ names
             | None, _ -> "F") in
       Printf.sprintf "OUT=%s|END=%s" (String.concat " " toks) fin
+    | _ -> "?args")
+
+(* ------------------------------------------------------------------------------------------
+   resume_fault_verdict proto src dst size hashes answers   -> D:<md5 of the destination> | N
+   Model/FaultResume.v fr_exchange_code (the guard and the truncation are the regenerated
+   Consts.c02_resume_rest_guard / c02_resume_truncates) on what was delivered during the resume
+   exchange of the in-process pair (go/cmd/corr/c02r.go).  B := Consts.prefix_hash_step;
+   H := the hex text of MD5, as fmt.Sprintf("%x", ...) gives it. *)
+let () =
+  register "resume_fault_verdict" (function [proto; src; dst; size; hashes; answers] ->
+      let h (w : n list) : n list = ft_bytes_of_str (Digest.to_hex (Digest.string (ft_str_of_bytes w))) in
+      let hs = List.map (fun t -> match String.split_on_char ':' t with
+          | ["H"; step; d] -> Resume.Hash (z_of_string step, bytes_of_hex d)
+          | _ -> Resume.Over) (ft_split ',' hashes) in
+      let ans = List.map (fun t -> match String.split_on_char ':' t with
+          | ["A"; step; m] -> { Resume.a_step = z_of_string step; a_match = bool_of m }
+          | _ -> failwith "answer") (ft_split ',' answers) in
+      let d = { FaultResume.fd_size = (if size = "-" then Z0 else z_of_string size); fd_hashes = hs; fd_answers = ans } in
+      (match FaultResume.fr_exchange_code Consts.prefix_hash_step h (int_of_string proto >= 4) (bytes_of_hex src) (bytes_of_hex dst) d with
+       | Some o -> "D:" ^ Digest.to_hex (Digest.string (ft_str_of_bytes o.FaultResume.fo_final))
+       | None -> "N")
     | _ -> "?args")
